@@ -184,13 +184,7 @@ func FuncBuilder(env *Zlisp, name string,
 		return MissingFunction, err
 	}
 
-	// minimal sanity check that we return the number of arguments
-	// on the stack that are declared
-	if len(body) == 0 {
-		for range retHash.KeyOrder {
-			gen.AddInstruction(PushInstr{expr: SexpNull})
-		}
-	}
+	// (an empty body already has the value nil: GenerateBegin)
 
 	gen.AddInstruction(RemoveScopeInstr{})
 	gen.AddInstruction(ReturnInstr{nil}) // nil is the error returned
